@@ -80,6 +80,16 @@ theorem C02_statement (d : Backend) (s : Query) (h : safe d false false 0 (rQuer
     substitute d (textP d (rQuery d s)).1 ((textP d (rQuery d s)).2.map (litText d)) = some (textI d (rQuery d s)) :=
   C02_substitute d (rQuery d s) h
 
+/-- **C02 for every statement of the model without caller-supplied raw text** (the bound values are
+arbitrary; constants written inline must be representable) -/
+theorem C02_all_statements (d : Backend) (q : Query) (hc : (rQuery d q).all (contentOK d false) = true) :
+    substitute d (textP d (rQuery d q)).1 ((textP d (rQuery d q)).2.map (litText d)) = some (textI d (rQuery d q)) :=
+  C02_statement d q (render_safe d false q hc)
+
+example : substitute .postgres (textP .postgres (rQuery .postgres demoQ)).1
+    ((textP .postgres (rQuery .postgres demoQ)).2.map (litText .postgres)) = some (textI .postgres (rQuery .postgres demoQ)) :=
+  C02_all_statements .postgres demoQ (by decide)
+
 /-- the two texts carry the same values: the inline form binds nothing -/
 theorem inline_has_no_values (d : Backend) (ps : Pieces) : paramsOf ps = (textP d ps).2 :=
   (values_eq_params d ps 0).symm
